@@ -391,10 +391,18 @@ func (pm *Portmapper) handleCall(data []byte, remoteAddr net.Addr) ([]byte, erro
 		switch procedure {
 		case 0: // RPCBPROC_NULL
 			result = nil
-		case 1: // RPCBPROC_SET - not implemented
-			result = pm.handleRpcbSet(r)
-		case 2: // RPCBPROC_UNSET - not implemented
-			result = pm.handleRpcbUnset(r)
+		case 1: // RPCBPROC_SET - localhost only, like portmap v2 SET
+			if !isLoopbackPeer(remoteAddr) {
+				result = pm.encodeBool(false)
+			} else {
+				result = pm.handleRpcbSet(r)
+			}
+		case 2: // RPCBPROC_UNSET - localhost only, like portmap v2 UNSET
+			if !isLoopbackPeer(remoteAddr) {
+				result = pm.encodeBool(false)
+			} else {
+				result = pm.handleRpcbUnset(r)
+			}
 		case 3: // RPCBPROC_GETADDR
 			result = pm.handleGetAddr(r)
 		case 4: // RPCBPROC_DUMP
@@ -507,14 +515,22 @@ func (pm *Portmapper) handleDump() []byte {
 	return buf.Bytes()
 }
 
+// isLoopbackPeer reports whether a SET/UNSET caller may change the registry.
+// A nil address means an in-process caller (a network connection always has
+// one). An address that does not parse as an IP is not loopback.
+func isLoopbackPeer(remoteAddr net.Addr) bool {
+	if remoteAddr == nil {
+		return true
+	}
+	host, _, _ := net.SplitHostPort(remoteAddr.String())
+	ip := net.ParseIP(host)
+	return ip != nil && ip.IsLoopback()
+}
+
 func (pm *Portmapper) handleSet(r io.Reader, remoteAddr net.Addr) []byte {
 	// Only allow SET from localhost
-	if remoteAddr != nil {
-		host, _, _ := net.SplitHostPort(remoteAddr.String())
-		ip := net.ParseIP(host)
-		if ip != nil && !ip.IsLoopback() {
-			return pm.encodeBool(false)
-		}
+	if !isLoopbackPeer(remoteAddr) {
+		return pm.encodeBool(false)
 	}
 
 	var prog, vers, prot, port uint32
@@ -538,12 +554,8 @@ func (pm *Portmapper) handleSet(r io.Reader, remoteAddr net.Addr) []byte {
 
 func (pm *Portmapper) handleUnset(r io.Reader, remoteAddr net.Addr) []byte {
 	// Only allow UNSET from localhost
-	if remoteAddr != nil {
-		host, _, _ := net.SplitHostPort(remoteAddr.String())
-		ip := net.ParseIP(host)
-		if ip != nil && !ip.IsLoopback() {
-			return pm.encodeBool(false)
-		}
+	if !isLoopbackPeer(remoteAddr) {
+		return pm.encodeBool(false)
 	}
 
 	var prog, vers, prot, port uint32
